@@ -25,9 +25,10 @@ VARIABLES expected, processed, ret,                 \* implementation: expectedS
           everExp, everProc, ckpts, shE, shP, shRet, \* ghosts: history, persisted values, uncompacted shadow
           dupFree,                                   \* ghost: no token has been expected twice so far
           accExp,                                    \* ghost: expectations registered before Cancel (everExp also holds the dropped ones)
+          shCkpts,                                   \* ghost: every value the uncompacted shadow has returned so far
           hist                                       \* behaviour so far (exported for replay; hidden by VIEW)
 impl   == <<expected, processed, ret, cancelled>>
-ghost  == <<threshold, restrict, feedOrdered, everExp, everProc, ckpts, shE, shP, shRet, dupFree, accExp>>
+ghost  == <<threshold, restrict, feedOrdered, everExp, everProc, ckpts, shE, shP, shRet, dupFree, accExp, shCkpts>>
 vars   == <<impl, ghost, hist>>
 view   == <<impl, ghost>>
 
@@ -77,7 +78,7 @@ Batches == UNION {[1..n -> Universe] : n \in 1..MaxBatch}
 Init ==
   /\ expected = <<>> /\ processed = {} /\ ret = None /\ cancelled = FALSE
   /\ threshold \in Thresholds /\ restrict \in FeedModes /\ feedOrdered = TRUE
-  /\ everExp = {} /\ everProc = {} /\ ckpts = <<>> /\ shE = <<>> /\ shP = {} /\ shRet = None /\ dupFree = TRUE /\ accExp = {}
+  /\ everExp = {} /\ everProc = {} /\ ckpts = <<>> /\ shE = <<>> /\ shP = {} /\ shRet = None /\ dupFree = TRUE /\ accExp = {} /\ shCkpts = {}
   /\ hist = <<>>
 
 (* after Cancel every notification is dropped (the `select <-c.ctx.Done()` at the top of each Add function) - but the
@@ -89,7 +90,7 @@ GhostExpect(ts)      == /\ everExp' = everExp \cup Range(ts) /\ shE' = (IF cance
                         /\ dupFree' = (dupFree /\ Range(ts) \cap everExp = {} /\ Cardinality(Range(ts)) = Len(ts))
                         /\ feedOrdered' = (feedOrdered /\ OrderedAfter(ts))
                         /\ accExp' = (IF cancelled THEN accExp ELSE accExp \cup Range(ts))
-                        /\ UNCHANGED <<threshold, restrict, everProc, ckpts, shP>>
+                        /\ UNCHANGED <<threshold, restrict, everProc, ckpts, shP, shCkpts>>
 ImplAlreadyKnown(ts) == \/ Dropped
                         \/ ~cancelled /\ expected' = expected \o ts /\ processed' = processed \cup Range(ts) /\ ret' = None /\ UNCHANGED cancelled
 GhostAlreadyKnown(ts) == /\ everExp' = everExp \cup Range(ts) /\ everProc' = everProc \cup Range(ts)
@@ -97,11 +98,11 @@ GhostAlreadyKnown(ts) == /\ everExp' = everExp \cup Range(ts) /\ everProc' = eve
                          /\ dupFree' = (dupFree /\ Range(ts) \cap everExp = {} /\ Cardinality(Range(ts)) = Len(ts))
                          /\ feedOrdered' = (feedOrdered /\ OrderedAfter(ts))
                          /\ accExp' = (IF cancelled THEN accExp ELSE accExp \cup Range(ts))
-                         /\ UNCHANGED <<threshold, restrict, ckpts>>
+                         /\ UNCHANGED <<threshold, restrict, ckpts, shCkpts>>
 ImplProcessed(s)    == \/ Dropped
                        \/ ~cancelled /\ processed' = processed \cup {s} /\ expected' = expected /\ ret' = None /\ UNCHANGED cancelled
 GhostProcessed(s)   == /\ everProc' = everProc \cup {s} /\ shP' = (IF cancelled THEN shP ELSE shP \cup {s}) /\ shRet' = None
-                       /\ UNCHANGED <<threshold, restrict, feedOrdered, everExp, ckpts, shE, dupFree, accExp>>
+                       /\ UNCHANGED <<threshold, restrict, feedOrdered, everExp, ckpts, shE, dupFree, accExp, shCkpts>>
 ImplTick ==
   \E p \in SortedOf(expected) :
     LET r == Trim(p, processed)
@@ -110,13 +111,19 @@ ImplTick ==
 GhostTick ==           \* refers to ret' (already determined by ImplTick or by the logged value)
   /\ ckpts' = IF ret' # None THEN Append(ckpts, ret') ELSE ckpts
   /\ \E q \in SortedOf(shE) :
-       LET r == Trim(q, shP) IN shE' = r.E /\ shP' = r.P /\ shRet' = r.ret
+       LET r == Trim(q, shP) IN /\ shE' = r.E /\ shP' = r.P /\ shRet' = r.ret
+                                /\ shCkpts' = IF r.ret # None THEN shCkpts \cup {r.ret} ELSE shCkpts
   /\ UNCHANGED <<threshold, restrict, feedOrdered, everExp, everProc, dupFree, accExp>>
 
 ImplCancel  == cancelled' = TRUE /\ UNCHANGED <<expected, processed>> /\ ret' = None
-GhostCancel == shRet' = None /\ UNCHANGED <<threshold, restrict, feedOrdered, everExp, everProc, ckpts, shE, shP, dupFree, accExp>>
+GhostCancel == shRet' = None /\ UNCHANGED <<threshold, restrict, feedOrdered, everExp, everProc, ckpts, shE, shP, dupFree, accExp, shCkpts>>
+
+(* a status read (calculateSafeProcessedSeq) sorts expectedSeqs in place and changes nothing else *)
+ImplSort  == expected' \in SortedOf(expected) /\ UNCHANGED <<processed, cancelled>> /\ ret' = None
+GhostSort == shRet' = None /\ UNCHANGED <<threshold, restrict, feedOrdered, everExp, everProc, ckpts, shE, shP, dupFree, accExp, shCkpts>>
 
 Step(a, ts) == hist' = Append(hist, [a |-> a, toks |-> ts])
+Sort == Len(expected) > 1 /\ ImplSort /\ GhostSort /\ Step("Sort", <<>>)
 Cancel == ~cancelled /\ ImplCancel /\ GhostCancel /\ Step("Cancel", <<>>)
 
 Expect(ts)       == FeedOK(ts) /\ ImplExpect(ts) /\ GhostExpect(ts) /\ Step("Expect", ts)
@@ -130,6 +137,7 @@ Next ==
      \/ \E s \in Universe : Processed(s)
      \/ Tick
      \/ Cancel
+     \/ Sort
 Spec == Init /\ [][Next]_vars
 
 -----------------------------------------------------------------------------
@@ -148,8 +156,8 @@ IsChain(S) == \A a, b \in S : a = b \/ Before(a, b) \/ Before(b, a)
 CompactionTransparent ==
   (IsChain(everExp) /\ dupFree /\ feedOrdered) => ret = shRet
 (* ... and in every case a compacted tick never returns a later position than the uncompacted one would *)
-CompactionNeverAhead ==
-  IsChain(everExp) => (ret = None \/ (shRet # None /\ (ret = shRet \/ Before(ret, shRet))))
+CompactionNeverAhead ==     \* the compacted lists may lag (and catch up at a later tick) but never lead the uncompacted ones
+  IsChain(everExp) => (ret = None \/ \E c \in shCkpts : ret = c \/ Before(ret, c))
 (* nothing expected is forgotten before it is processed *)
 NoLoss == \A e \in accExp : e \in everProc \/ e \in Range(expected)
 TypeOK == /\ expected \in Seq(Universe) /\ processed \subseteq Universe /\ ret \in Universe \cup {None}
